@@ -22,8 +22,8 @@ use serde::Serialize;
 
 use std::collections::BTreeMap;
 
+const TEMPLATE_ID: u16 = 2;
 const OPTIONS_TEMPLATE_ID: u16 = 3;
-const SET_MIN_RANGE: u16 = 255;
 
 type TemplateId = u16;
 type IPFixFieldPair = (IPFixField, FieldValue);
@@ -87,8 +87,8 @@ pub enum FlowSetBody {
 /// Parses a FlowSetBody from the input byte slice based on the provided flowset ID.
 ///
 /// The behavior of this function depends on the value of `id`:
-/// - If `id` is less than a defined minimum range and not equal to `OPTIONS_TEMPLATE_ID`, it treats
-///   the input as a regular template:
+/// - If `id` equals `TEMPLATE_ID` (2), it treats the input as a regular template (Set IDs 0, 1 and
+///   4-255 are unused/reserved by RFC 7011 and never define a template):
 ///   - The template is parsed using `Template::parse`.
 ///   - If the parsed template is invalid, an error is returned.
 ///   - The valid template is stored in the parser's template map before being returned as a `FlowSetBody::Template`.
@@ -124,7 +124,7 @@ impl FlowSetBody {
         id: u16,
     ) -> IResult<&'a [u8], FlowSetBody> {
         match id {
-            _ if id < SET_MIN_RANGE && id != OPTIONS_TEMPLATE_ID => {
+            TEMPLATE_ID => {
                 let (i, template) = Template::parse(i)?;
                 if !template.is_valid() {
                     return Err(nom::Err::Error(nom::error::Error::new(
